@@ -20,7 +20,8 @@ use std::cell::RefCell;
 use std::rc::Rc;
 
 use cameleon::genapi::{DefaultGenApiCtxt, GenApiError, NodeStore};
-use cameleon::payload::PayloadSender;
+use cameleon::payload::{Payload, PayloadReceiver, PayloadSender};
+use cameleon::u3v::stream_handle::verif_build_payload;
 use cameleon::{
     Camera, CameleonError, CameraInfo, ControlError, ControlResult, DeviceControl, PayloadStream, StreamError,
     StreamResult,
@@ -104,6 +105,37 @@ struct World {
     stop_fail_kills: bool,
     xml: String,
     senders: Vec<PayloadSender>,
+    /// ids of the tokens the loop pushed through the sender it was given (until the channel was full)
+    fwd_tokens: Vec<u64>,
+    next_token: u64,
+    /// observed payload channel between the live loop and the caller's receiver:
+    /// (forward capacity, give-back capacity), `None` components = tokens did not arrive intact
+    chan: Option<(Option<usize>, Option<usize>)>,
+    /// kind of the injected errors (0 = Io; the others exercise the other variants)
+    fault_kind: u8,
+}
+
+/// A real `Payload` (chunk payload, 1 byte) whose block id is `id`, built by the real
+/// `PayloadBuilder` through the verification hook.
+fn token(id: u64) -> Payload {
+    let mut leader = vec![];
+    leader.extend_from_slice(&0x4C56_3355u32.to_le_bytes());
+    leader.extend_from_slice(&0u16.to_le_bytes());
+    leader.extend_from_slice(&28u16.to_le_bytes());
+    leader.extend_from_slice(&id.to_le_bytes());
+    leader.extend_from_slice(&0u16.to_le_bytes());
+    leader.extend_from_slice(&0x4000u16.to_le_bytes());
+    leader.extend_from_slice(&0u64.to_le_bytes());
+    let mut trailer = vec![];
+    trailer.extend_from_slice(&0x5456_3355u32.to_le_bytes());
+    trailer.extend_from_slice(&0u16.to_le_bytes());
+    trailer.extend_from_slice(&32u16.to_le_bytes());
+    trailer.extend_from_slice(&id.to_le_bytes());
+    trailer.extend_from_slice(&0u16.to_le_bytes());
+    trailer.extend_from_slice(&0u16.to_le_bytes());
+    trailer.extend_from_slice(&1u64.to_le_bytes());
+    trailer.extend_from_slice(&0u32.to_le_bytes());
+    verif_build_payload(&leader, &trailer, vec![id as u8], 1).expect("token payload")
 }
 
 impl World {
@@ -123,10 +155,37 @@ impl World {
     }
 }
 
-fn ctrl_res(o: Out) -> ControlResult<()> {
+const CTRL_KINDS: [&str; 6] = ["Io", "Timeout", "Disconnected", "Busy", "InvalidDevice", "BufferTooSmall"];
+const STRM_KINDS: [&str; 6] = ["Io", "Timeout", "Disconnected", "BufferTooSmall", "SendError", "InvalidPayload"];
+const STOP_KINDS: [&str; 6] = ["Poisoned", "Timeout", "Disconnected", "BufferTooSmall", "SendError", "InvalidPayload"];
+
+fn ctrl_fault(kind: u8) -> ControlError {
+    match kind {
+        0 => ControlError::Io(io_fault().into()),
+        1 => ControlError::Timeout,
+        2 => ControlError::Disconnected,
+        3 => ControlError::Busy,
+        4 => ControlError::InvalidDevice("injected fault".into()),
+        _ => ControlError::BufferTooSmall,
+    }
+}
+
+fn strm_fault(kind: u8, stop: bool) -> StreamError {
+    match kind {
+        0 if stop => StreamError::Poisoned("injected fault".into()),
+        0 => StreamError::Io(io_fault().into()),
+        1 => StreamError::Timeout,
+        2 => StreamError::Disconnected,
+        3 => StreamError::BufferTooSmall,
+        4 => StreamError::SendError("injected fault".into()),
+        _ => StreamError::InvalidPayload("injected fault".into()),
+    }
+}
+
+fn ctrl_res(o: Out, kind: u8) -> ControlResult<()> {
     match o {
         Out::Ok => Ok(()),
-        Out::Fault => Err(ControlError::Io(io_fault().into())),
+        Out::Fault => Err(ctrl_fault(kind)),
         Out::NotOpened => Err(ControlError::NotOpened),
     }
 }
@@ -148,7 +207,7 @@ impl DeviceControl for FakeCtrl {
         if o == Out::Ok {
             w.ctrl_open = true;
         }
-        ctrl_res(o)
+        ctrl_res(o, w.fault_kind)
     }
     fn close(&mut self) -> ControlResult<()> {
         let mut w = self.0.borrow_mut();
@@ -156,7 +215,7 @@ impl DeviceControl for FakeCtrl {
         if o == Out::Ok {
             w.ctrl_open = false;
         }
-        ctrl_res(o)
+        ctrl_res(o, w.fault_kind)
     }
     fn is_opened(&self) -> bool {
         self.0.borrow().ctrl_open
@@ -171,7 +230,7 @@ impl DeviceControl for FakeCtrl {
         if o == Out::Ok && buf.len() == 4 {
             buf.copy_from_slice(&v.to_le_bytes());
         }
-        ctrl_res(o)
+        ctrl_res(o, w.fault_kind)
     }
     fn write(&mut self, address: u64, data: &[u8]) -> ControlResult<()> {
         let mut w = self.0.borrow_mut();
@@ -191,12 +250,12 @@ impl DeviceControl for FakeCtrl {
                 _ => {}
             }
         }
-        ctrl_res(o)
+        ctrl_res(o, w.fault_kind)
     }
     fn genapi(&mut self) -> ControlResult<String> {
         let mut w = self.0.borrow_mut();
         let o = w.step(Sub::GenApi, true);
-        ctrl_res(o).map(|_| w.xml.clone())
+        ctrl_res(o, w.fault_kind).map(|_| w.xml.clone())
     }
     fn enable_streaming(&mut self) -> ControlResult<()> {
         let mut w = self.0.borrow_mut();
@@ -204,7 +263,7 @@ impl DeviceControl for FakeCtrl {
         if o == Out::Ok {
             w.enabled = true;
         }
-        ctrl_res(o)
+        ctrl_res(o, w.fault_kind)
     }
     fn disable_streaming(&mut self) -> ControlResult<()> {
         let mut w = self.0.borrow_mut();
@@ -212,7 +271,7 @@ impl DeviceControl for FakeCtrl {
         if o == Out::Ok {
             w.enabled = false;
         }
-        ctrl_res(o)
+        ctrl_res(o, w.fault_kind)
     }
 }
 
@@ -224,7 +283,7 @@ impl PayloadStream for FakeStrm {
             w.strm_open = true;
             Ok(())
         } else {
-            Err(StreamError::Io(io_fault().into()))
+            Err(strm_fault(w.fault_kind, false))
         }
     }
     fn close(&mut self) -> StreamResult<()> {
@@ -234,7 +293,7 @@ impl PayloadStream for FakeStrm {
             w.strm_open = false;
             Ok(())
         } else {
-            Err(StreamError::Io(io_fault().into()))
+            Err(strm_fault(w.fault_kind, false))
         }
     }
     fn start_streaming_loop(&mut self, sender: PayloadSender, _ctrl: &mut dyn DeviceControl) -> StreamResult<()> {
@@ -244,10 +303,20 @@ impl PayloadStream for FakeStrm {
             // permissive on purpose: a second call WOULD create a second loop
             w.loops += 1;
             w.flag = true;
+            // the loop's side of the payload channel: push tokens until the channel is full
+            w.fwd_tokens.clear();
+            for _ in 0..64 {
+                let id = w.next_token;
+                if sender.try_send(Ok(token(id))).is_err() {
+                    break;
+                }
+                w.next_token += 1;
+                w.fwd_tokens.push(id);
+            }
             w.senders.push(sender);
             Ok(())
         } else {
-            Err(StreamError::Io(io_fault().into()))
+            Err(strm_fault(w.fault_kind, false))
         }
     }
     fn stop_streaming_loop(&mut self) -> StreamResult<()> {
@@ -257,6 +326,7 @@ impl PayloadStream for FakeStrm {
             w.loops = w.loops.saturating_sub(1);
             w.flag = w.loops > 0;
             w.senders.pop();
+            w.chan = None;
             Ok(())
         } else {
             if w.stop_fail_kills {
@@ -265,8 +335,9 @@ impl PayloadStream for FakeStrm {
                 w.loops = w.loops.saturating_sub(1);
                 w.flag = false;
                 w.senders.pop();
+                w.chan = None;
             }
-            Err(StreamError::Poisoned("injected fault".into()))
+            Err(strm_fault(w.fault_kind, true))
         }
     }
     fn is_loop_running(&self) -> bool {
@@ -392,6 +463,12 @@ enum Op {
     Stop,
     Close,
     Param,
+    /// state surgery through the public API, not a call of the property: install a context
+    /// built from the device's description (`Camera::new(.., Some(ctxt), ..)` when it is the
+    /// first step, `Camera::set_context` otherwise)
+    Preload,
+    /// state surgery: `camera.ctxt = None` through the public field
+    Unload,
 }
 
 impl Op {
@@ -403,6 +480,8 @@ impl Op {
             Op::Stop => "stop".into(),
             Op::Close => "close".into(),
             Op::Param => "param".into(),
+            Op::Preload => "preload".into(),
+            Op::Unload => "unload".into(),
         }
     }
     fn from_name(s: &str) -> Op {
@@ -412,6 +491,8 @@ impl Op {
             "stop" => Op::Stop,
             "close" => Op::Close,
             "param" => Op::Param,
+            "preload" => Op::Preload,
+            "unload" => Op::Unload,
             _ => Op::Start(s.trim_start_matches("start").parse().unwrap()),
         }
     }
@@ -438,7 +519,12 @@ fn err_class(e: &CameleonError) -> String {
                 StreamError::InStreaming => "InStreaming",
                 StreamError::Io(_) => "Io",
                 StreamError::Poisoned(_) => "Poisoned",
-                _ => "Other",
+                StreamError::ReceiveError(_) => "ReceiveError",
+                StreamError::SendError(_) => "SendError",
+                StreamError::InvalidPayload(_) => "InvalidPayload",
+                StreamError::Disconnected => "Disconnected",
+                StreamError::Timeout => "Timeout",
+                StreamError::BufferTooSmall => "BufferTooSmall",
             }
         ),
         CameleonError::GenApiContextMissing => "CtxtMissing".into(),
@@ -470,13 +556,14 @@ struct Snap {
     ctxt: bool,
     /// cache entries of (TLParamsLockedReg, AcquisitionStartReg, AcquisitionStopReg, GainReg)
     cache: [bool; 4],
+    chan: Option<(Option<usize>, Option<usize>)>,
 }
 
 impl Snap {
     fn show(&self) -> String {
         let b = |v: bool| if v { 1 } else { 0 };
         format!(
-            "R{}N{}E{}L{}A{}C{}S{}X{}K{}{}{}{}",
+            "R{}N{}E{}L{}A{}C{}S{}X{}K{}{}{}{}{}",
             b(self.flag),
             self.loops,
             b(self.enabled),
@@ -488,7 +575,15 @@ impl Snap {
             b(self.cache[0]),
             b(self.cache[1]),
             b(self.cache[2]),
-            b(self.cache[3])
+            b(self.cache[3]),
+            match self.chan {
+                None => "H-".to_string(),
+                Some((f, k)) => format!(
+                    "H{}.{}",
+                    f.map_or("X".to_string(), |n| n.to_string()),
+                    k.map_or("X".to_string(), |n| n.to_string())
+                ),
+            }
         )
     }
     fn cache_empty(&self) -> bool {
@@ -528,7 +623,40 @@ fn snapshot(cam: &mut Cam, w: &Rc<RefCell<World>>) -> Snap {
         strm_open: w.strm_open,
         ctxt,
         cache,
+        chan: w.chan,
     }
+}
+
+/// The caller's side of the payload channel, right after `start_streaming` returned `receiver`:
+/// every token the loop pushed must arrive, in order, and nothing else (identity + forward
+/// capacity); payloads given back must reach the loop's sender, in order (identity + give-back
+/// capacity).
+fn observe_channel(receiver: &PayloadReceiver, w: &Rc<RefCell<World>>) {
+    let mut got = vec![];
+    while let Ok(p) = receiver.try_recv() {
+        got.push(p.id());
+        if got.len() > 100 {
+            break;
+        }
+    }
+    let mut w = w.borrow_mut();
+    let fwd = if got == w.fwd_tokens { Some(got.len()) } else { None };
+    let base = w.next_token;
+    for j in 0..16 {
+        receiver.send_back(token(base + j));
+    }
+    w.next_token += 16;
+    let mut back = vec![];
+    if let Some(sender) = w.senders.last() {
+        while let Ok(p) = sender.try_recv() {
+            back.push(p.id());
+            if back.len() > 100 {
+                break;
+            }
+        }
+    }
+    let intact = back.iter().enumerate().all(|(j, id)| *id == base + j as u64);
+    w.chan = Some((fwd, if intact { Some(back.len()) } else { None }));
 }
 
 struct CallOut {
@@ -546,6 +674,8 @@ struct Case {
     stop_fail_kills: bool,
     faults: Vec<usize>,
     ops: Vec<Op>,
+    /// variant of the injected errors (index into CTRL_KINDS / STRM_KINDS)
+    kind: u8,
 }
 
 impl Case {
@@ -556,10 +686,10 @@ impl Case {
             self.faults.iter().map(|k| k.to_string()).collect::<Vec<_>>().join(",")
         };
         let ops = self.ops.iter().map(|o| o.name()).collect::<Vec<_>>().join(" ");
-        format!("c16 run {} {} {} {}", self.xml.bits(), if self.stop_fail_kills { "kill" } else { "keep" }, f, ops)
+        format!("c16 run {} {} {} {} {}", self.xml.bits(), if self.stop_fail_kills { "kill" } else { "keep" }, self.kind, f, ops)
     }
     fn replay(&self) -> Value {
-        json!({"xml": self.xml.name(), "stop_fail_kills": self.stop_fail_kills, "faults": self.faults,
+        json!({"xml": self.xml.name(), "stop_fail_kills": self.stop_fail_kills, "faults": self.faults, "kind": self.kind,
                "ops": self.ops.iter().map(|o| o.name()).collect::<Vec<_>>()})
     }
     fn from_replay(r: &Value) -> Case {
@@ -568,6 +698,7 @@ impl Case {
             stop_fail_kills: r["stop_fail_kills"].as_bool().unwrap(),
             faults: r["faults"].as_array().unwrap().iter().map(|v| v.as_u64().unwrap() as usize).collect(),
             ops: r["ops"].as_array().unwrap().iter().map(|v| Op::from_name(v.as_str().unwrap())).collect(),
+            kind: r["kind"].as_u64().unwrap_or(0) as u8,
         }
     }
 }
@@ -578,35 +709,61 @@ fn run_impl(case: &Case, xml_text: &str) -> Vec<CallOut> {
         stop_fail_kills: case.stop_fail_kills,
         xml: xml_text.to_string(),
         gain: 7,
+        fault_kind: case.kind,
         ..World::default()
     }));
     let info = CameraInfo { vendor_name: "v".into(), model_name: "m".into(), serial_number: "s".into() };
-    let mut cam: Cam = Camera::new(FakeCtrl(world.clone()), FakeStrm(world.clone()), None, info);
+    use cameleon::genapi::FromXml;
+    let first_preload = case.ops.first() == Some(&Op::Preload);
+    let ctxt0 = if first_preload { DefaultGenApiCtxt::from_xml(&xml_text).ok() } else { None };
+    let mut cam_opt: Option<Cam> = Some(Camera::new(FakeCtrl(world.clone()), FakeStrm(world.clone()), ctxt0, info));
     let mut outs = vec![];
-    for op in &case.ops {
-        let before = snapshot(&mut cam, &world);
+    for (i, op) in case.ops.iter().enumerate() {
+        let before = snapshot(cam_opt.as_mut().unwrap(), &world);
         let t0 = world.borrow().trace.len();
-        let r: Result<Result<(), CameleonError>, ()> = catch(|| match op {
-            Op::Open => cam.open(),
-            Op::Load => cam.load_context().map(|_| ()),
-            Op::Start(cap) => cam.start_streaming(*cap).map(|_| ()),
-            Op::Stop => cam.stop_streaming(),
-            Op::Close => cam.close(),
-            Op::Param => {
-                let mut ctxt = cam.params_ctxt()?;
-                let node = ctxt.node("Gain").unwrap().as_integer(&ctxt).unwrap();
-                let v = node.value(&mut ctxt)?;
-                assert_eq!(v, 7);
-                Ok(())
+        let r: Result<Result<(), CameleonError>, ()> = match op {
+            Op::Preload => match DefaultGenApiCtxt::from_xml(&xml_text) {
+                Ok(ctxt) => {
+                    if !(i == 0 && first_preload) {
+                        let c = cam_opt.take().unwrap();
+                        cam_opt = Some(c.set_context(ctxt));
+                    }
+                    Ok(Ok(()))
+                }
+                Err(e) => Ok(Err(e.into())),
+            },
+            Op::Unload => {
+                cam_opt.as_mut().unwrap().ctxt = None;
+                Ok(Ok(()))
             }
-        });
+            _ => {
+                let cam = cam_opt.as_mut().unwrap();
+                catch(|| match op {
+                    Op::Open => cam.open(),
+                    Op::Load => cam.load_context().map(|_| ()),
+                    Op::Start(cap) => cam.start_streaming(*cap).map(|rx| {
+                        observe_channel(&rx, &world);
+                    }),
+                    Op::Stop => cam.stop_streaming(),
+                    Op::Close => cam.close(),
+                    Op::Param => {
+                        let mut ctxt = cam.params_ctxt()?;
+                        let node = ctxt.node("Gain").unwrap().as_integer(&ctxt).unwrap();
+                        let v = node.value(&mut ctxt)?;
+                        assert_eq!(v, 7);
+                        Ok(())
+                    }
+                    Op::Preload | Op::Unload => unreachable!(),
+                })
+            }
+        };
         let res = match &r {
             Err(()) => "panic".to_string(),
             Ok(Ok(())) => "ok".to_string(),
             Ok(Err(e)) => format!("err:{}", err_class(e)),
         };
         let seg = world.borrow().trace[t0..].to_vec();
-        let after = snapshot(&mut cam, &world);
+        let after = snapshot(cam_opt.as_mut().unwrap(), &world);
         outs.push(CallOut { op: *op, res, seg, before, after });
     }
     // break the Rc cycle-free world explicitly (senders hold channels only)
@@ -642,30 +799,53 @@ fn pos(seg: &[(Sub, Out)], k: impl Fn(Sub) -> bool) -> Option<usize> {
     seg.iter().position(|e| k(e.0))
 }
 
-fn expected_err(e: &(Sub, Out)) -> String {
+fn expected_err(e: &(Sub, Out), kind: u8) -> String {
+    let k = kind.min(5) as usize;
     match (e.0, e.1) {
-        (Sub::StrmOpen | Sub::StrmClose | Sub::LoopStart, _) => "err:Stream.Io".into(),
-        (Sub::LoopStop, _) => "err:Stream.Poisoned".into(),
+        (Sub::StrmOpen | Sub::StrmClose | Sub::LoopStart, _) => format!("err:Stream.{}", STRM_KINDS[k]),
+        (Sub::LoopStop, _) => format!("err:Stream.{}", STOP_KINDS[k]),
         (Sub::LockSet(_) | Sub::AcqStart | Sub::AcqStop | Sub::ParamRead | Sub::Other, _) => "err:GenApi.Device".into(),
         (_, Out::NotOpened) => "err:Control.NotOpened".into(),
-        (_, _) => "err:Control.Io".into(),
+        (_, _) => format!("err:Control.{}", CTRL_KINDS[k]),
     }
+}
+
+/// `Good` of the Lean spec on a snapshot: acquisition state consistent with the loop flag, and
+/// the loaded description (always the case's) complete.
+fn good(s: &Snap, xml: XmlVar) -> bool {
+    s.loops <= 1
+        && s.flag == (s.loops == 1)
+        && s.enabled == s.flag
+        && s.lock == s.flag as u32
+        && s.acquiring == s.flag
+        && (!s.flag || s.ctxt)
+        && (!s.ctxt || xml.all_good())
+}
+
+/// a sub-operation that is not a step of the start/stop protocol
+fn non_protocol(k: Sub) -> bool {
+    matches!(k, Sub::CtrlOpen | Sub::StrmOpen | Sub::CtrlClose | Sub::StrmClose | Sub::GenApi | Sub::ParamRead)
 }
 
 /// Returns (kind, description) of every property clause the run violates.
 fn oracle(case: &Case, outs: &[CallOut]) -> Vec<(&'static str, String)> {
     let mut bad: Vec<(&'static str, String)> = vec![];
-    let mut history_clean = case.xml.all_good();
     for (i, o) in outs.iter().enumerate() {
         let seg = &o.seg;
         let at = format!("call #{i} {}", o.op.name());
+        if matches!(o.op, Op::Preload | Op::Unload) {
+            if !seg.is_empty() {
+                bad.push(("fault_stops_call", format!("{at}: state surgery touched the device")));
+            }
+            continue;
+        }
         // ---- fault_stops_call: a failing sub-operation is the last effect of its call and
         //      its error is what the call returns
         if let Some(p) = seg.iter().position(is_fail) {
             if p + 1 != seg.len() {
                 bad.push(("fault_stops_call", format!("{at}: effects after the failing step {}", tok(&seg[p]))));
             }
-            if o.res != expected_err(&seg[p]) {
+            if o.res != expected_err(&seg[p], case.kind) {
                 bad.push(("fault_stops_call", format!("{at}: step {} failed but the call returned {}", tok(&seg[p]), o.res)));
             }
         } else if o.res.starts_with("err:")
@@ -696,6 +876,13 @@ fn oracle(case: &Case, outs: &[CallOut]) -> Vec<(&'static str, String)> {
                 }
                 if !(o.after.flag && o.after.enabled && o.after.lock == 1 && o.after.acquiring) {
                     bad.push(("start_order", format!("{at}: successful start leaves {}", o.after.show())));
+                }
+                // the receiver handed to the caller is the peer of the sender handed to the loop,
+                // with payload capacity `cap` (and the documented give-back capacity 5)
+                if let Op::Start(cap) = o.op {
+                    if o.after.chan != Some((Some(cap), Some(5))) {
+                        bad.push(("payload_channel", format!("{at}: channel between the loop and the returned receiver is {:?}, expected capacity {cap} / give-back 5", o.after.chan)));
+                    }
                 }
             }
             // ---- no_second_loop
@@ -757,15 +944,18 @@ fn oracle(case: &Case, outs: &[CallOut]) -> Vec<(&'static str, String)> {
         if o.res == "panic" && !seg.is_empty() {
             bad.push(("panic_no_effect", format!("{at}: panicked after the effects {:?}", seg.iter().map(tok).collect::<Vec<_>>())));
         }
-        // ---- close_clean: no failed device/stream operation so far, complete description
-        if seg.iter().any(is_fail) {
-            history_clean = false;
+        // ---- consistent_unless_protocol_step_fails: from a consistent state, a call whose
+        //      failing effects (if any) are not protocol steps leaves a consistent state
+        let before_good = good(&o.before, case.xml);
+        if before_good && seg.iter().all(|e| e.1 == Out::Ok || non_protocol(e.0)) && !good(&o.after, case.xml) {
+            bad.push(("consistent_step", format!("{at}: consistent before ({}), no protocol step failed, but left {}", o.before.show(), o.after.show())));
         }
-        if o.op == Op::Close && history_clean {
+        // ---- close_clean (per state): consistent before close and no failing effect during it
+        if o.op == Op::Close && before_good && !seg.iter().any(is_fail) {
             let a = &o.after;
-            let clean = o.res == "ok" && !a.flag && a.loops == 0 && a.lock == 0 && !a.enabled && !a.acquiring && !a.ctrl_open && !a.strm_open && a.cache_empty();
+            let clean = o.res == "ok" && !a.flag && a.loops == 0 && a.lock == 0 && !a.enabled && !a.acquiring && !a.ctrl_open && !a.strm_open && a.cache_empty() && a.chan.is_none();
             if !clean {
-                bad.push(("close_clean", format!("{at}: no operation failed, but close returned {} and left {}", o.res, a.show())));
+                bad.push(("close_clean", format!("{at}: consistent before ({}), nothing failed during close, but close returned {} and left {}", o.before.show(), o.res, a.show())));
             }
         }
     }
@@ -913,7 +1103,7 @@ fn main() {
     let args = parse_args();
     let rep = Report::new(
         "C16",
-        "exhaustive: every call sequence over {open, load, start(1), stop, close, param} up to the depth bound x (no fault + a fault at every sub-operation index), for the complete description; shallower exhaustive sweeps with start(0)/start(3), fault pairs, defective descriptions (node missing / wrong interface / unparsable) and the loop-dies-on-failed-stop stream behaviour; plus seeded random deep sequences. A case is non-trivial when at least one start_streaming call succeeds; distinct by the full request line",
+        "exhaustive: every call sequence over {open, load, start(1), stop, close, param} up to the depth bound x (no fault + a fault at every sub-operation index), for the complete description; shallower exhaustive sweeps with start(0)/start(3), fault pairs, defective descriptions (node missing / wrong interface / unparsable), the loop-dies-on-failed-stop stream behaviour, contexts installed/removed behind the camera's back (Camera::new(Some)/set_context/public field), five further error variants; plus seeded random deep sequences. Every successful start pushes real payload tokens both ways through the channel. A case is non-trivial when at least one start_streaming call succeeds; distinct by the full request line",
     );
     let mut cx = Ctx { rep, xmls: Default::default(), camdrv: args.camdrv.clone() };
 
@@ -933,7 +1123,7 @@ fn main() {
             vec![Op::Open, Op::Load, Op::Start(0), Op::Close],
             vec![Op::Load, Op::Open, Op::Load, Op::Start(1), Op::Load, Op::Close, Op::Param],
         ] {
-            let case = Case { xml: XmlVar::FULL, stop_fail_kills: false, faults: vec![], ops };
+            let case = Case { xml: XmlVar::FULL, stop_fail_kills: false, faults: vec![], ops, kind: 0 };
             let xml = cx.xml_text(case.xml);
             let outs = run_impl(&case, &xml);
             println!("{}\n  {}", case.request(), answer(&outs));
@@ -967,7 +1157,7 @@ fn main() {
     let mut seqs: Vec<Vec<Op>> = vec![];
     sequences(&base6, d_main, &mut |s| seqs.push(s.to_vec()));
     for s in &seqs {
-        let c = Case { xml: XmlVar::FULL, stop_fail_kills: false, faults: vec![], ops: s.clone() };
+        let c = Case { xml: XmlVar::FULL, stop_fail_kills: false, faults: vec![], ops: s.clone(), kind: 0 };
         cx.with_faults(&c, false, "exhaustive-main");
     }
     cx.rep.extra.insert(
@@ -983,14 +1173,14 @@ fn main() {
         if !s.contains(&Op::Start(0)) {
             continue;
         }
-        let c = Case { xml: XmlVar::FULL, stop_fail_kills: false, faults: vec![], ops: s.clone() };
+        let c = Case { xml: XmlVar::FULL, stop_fail_kills: false, faults: vec![], ops: s.clone(), kind: 0 };
         cx.with_faults(&c, false, "exhaustive-cap0");
     }
     let d3 = if thorough { 5 } else { 4 };
     let mut seqs3: Vec<Vec<Op>> = vec![];
     sequences(&base5, d3, &mut |s| seqs3.push(s.to_vec()));
     for s in &seqs3 {
-        let c = Case { xml: XmlVar::FULL, stop_fail_kills: false, faults: vec![], ops: s.clone() };
+        let c = Case { xml: XmlVar::FULL, stop_fail_kills: false, faults: vec![], ops: s.clone(), kind: 0 };
         cx.with_faults(&c, true, "exhaustive-fault-pairs");
     }
 
@@ -1002,7 +1192,7 @@ fn main() {
         if !s.iter().any(|o| matches!(o, Op::Stop | Op::Close)) {
             continue;
         }
-        let c = Case { xml: XmlVar::FULL, stop_fail_kills: true, faults: vec![], ops: s.clone() };
+        let c = Case { xml: XmlVar::FULL, stop_fail_kills: true, faults: vec![], ops: s.clone(), kind: 0 };
         cx.with_faults(&c, false, "exhaustive-stopfail-kills");
     }
 
@@ -1022,8 +1212,38 @@ fn main() {
             if !s.contains(&Op::Load) {
                 continue;
             }
-            let c = Case { xml: *v, stop_fail_kills: false, faults: vec![], ops: s.clone() };
+            let c = Case { xml: *v, stop_fail_kills: false, faults: vec![], ops: s.clone(), kind: 0 };
             cx.with_faults(&c, false, "exhaustive-defective-xml");
+        }
+    }
+
+    // (5a) states outside the reachable set of the five calls: a context installed through
+    //      Camera::new(.., Some(ctxt)) / set_context, or removed through the public field
+    let surg = [Op::Open, Op::Load, Op::Preload, Op::Unload, Op::Start(1), Op::Stop, Op::Close];
+    let d6 = if thorough { 5 } else { 4 };
+    let mut seqs6: Vec<Vec<Op>> = vec![];
+    sequences(&surg, d6, &mut |s| seqs6.push(s.to_vec()));
+    for v in [XmlVar::FULL, XmlVar { start: NodeVar::Missing, ..XmlVar::FULL }, XmlVar { parse_ok: false, ..XmlVar::FULL }] {
+        for s in &seqs6 {
+            if !s.iter().any(|o| matches!(o, Op::Preload | Op::Unload)) {
+                continue;
+            }
+            if v != XmlVar::FULL && !s.contains(&Op::Preload) {
+                continue;
+            }
+            let c = Case { xml: v, stop_fail_kills: false, faults: vec![], ops: s.clone(), kind: 0 };
+            cx.with_faults(&c, false, "exhaustive-preload-unload");
+        }
+    }
+
+    // (5b) the other error variants a handle may return (propagated unchanged)
+    let d7 = if thorough { 5 } else { 4 };
+    let mut seqs7: Vec<Vec<Op>> = vec![];
+    sequences(&base5, d7, &mut |s| seqs7.push(s.to_vec()));
+    for kind in 1..6u8 {
+        for s in &seqs7 {
+            let c = Case { xml: XmlVar::FULL, stop_fail_kills: kind % 2 == 0, faults: vec![], ops: s.clone(), kind };
+            cx.with_faults(&c, false, "exhaustive-error-kinds");
         }
     }
 
@@ -1040,6 +1260,13 @@ fn main() {
                 9 => Op::Start(0),
                 10..=11 => Op::Stop,
                 12..=13 => Op::Close,
+                14 => {
+                    if rng.bool() {
+                        Op::Preload
+                    } else {
+                        Op::Unload
+                    }
+                }
                 _ => Op::Param,
             })
             .collect();
@@ -1048,7 +1275,7 @@ fn main() {
         faults.sort();
         faults.dedup();
         let xml = if rng.chance(1, 6) { *rng.pick(&vars) } else { XmlVar::FULL };
-        let c = Case { xml, stop_fail_kills: rng.bool(), faults, ops };
+        let c = Case { xml, stop_fail_kills: rng.bool(), faults, ops, kind: rng.below(6) as u8 };
         cx.one(&c, "random-deep");
     }
 
